@@ -117,9 +117,11 @@ Definition OV_HEY : Z := 2040.
 
 (** * Containers: the list of the file sizes *)
 
-Definition nth_size (l : list Z) (i : Z) : option Z :=
-  if i <? 0 then None else nth_error l (Z.to_nat i).
 Definition in_range (l : list Z) (i : Z) : bool := (0 <=? i) && (i <? Z.of_nat (length l)).
+(** [l[i]]; the range test comes first so that an index like 2^62 is never turned into a unary
+    number when the model is executed *)
+Definition nth_size (l : list Z) (i : Z) : option Z :=
+  if in_range l i then nth_error l (Z.to_nat i) else None.
 
 (** pwr.ComputeNumBlocks (Go's [/] truncates: [Z.quot]) *)
 Definition num_blocks (bs size : Z) : Z := Z.quot (size + bs - 1) bs.
